@@ -21,7 +21,7 @@ enum { K_SWW, K_SWR, K_WRAP, K_REFUSED, K_EMPTY, K_SEM, K_NOSEM, K_MARKER, K_TWO
 const char *verif_rule =
 	"case = ring size (1 page real size), semaphore on/off, writer script (<= 12 writes: one-call write or alloc + word-wise fill with yields + commit; lengths 0..S incl. odd), "
 	"reader script (<= 24 ops: read with big/small buffer, peek + word-wise compare with yields + reclaim; timeout 0), and a schedule: one choice per yield point "
-	"(instrumented load/store of the shared header/data, semaphore op); thorough/quick also enumerate every schedule with <= 2 preemptions of 8 fixed 2+2-op scripts. "
+	"(instrumented load/store of the shared header/data, semaphore op); thorough/quick also enumerate every schedule with <= 2 preemptions of 9 fixed 2+2-op scripts. "
 	"non-trivial = >= 1 context switch strictly inside a libqb call on EACH side AND (write position wrapped OR a write was refused OR a read found the ring empty); "
 	"distinct = hash of scripts and effective schedule trace";
 int verif_fork_per_case = 1;
@@ -173,7 +173,8 @@ static void reader_fn(void *arg)
 
 /* ---- fixed small scripts for the enumerator: (writer lens, reader kinds) */
 struct escript { uint32_t wl[2]; uint8_t wtwo[2]; uint8_t rk[2]; uint32_t prefill; };
-static const struct escript ES[8] = {
+#define NES 9
+static const struct escript ES[NES] = {
 	{ { 5, 9 }, { 0, 0 }, { 0, 0 }, 0 },		/* empty ring, two small writes, two reads */
 	{ { 8, 0 }, { 1, 0 }, { 2, 0 }, 0 },		/* alloc+commit vs peek+reclaim */
 	{ { 13, 4 }, { 0, 1 }, { 2, 2 }, 0 },
@@ -182,6 +183,8 @@ static const struct escript ES[8] = {
 	{ { 1500, 1500 }, { 0, 0 }, { 0, 0 }, 2 },	/* write position wraps */
 	{ { 1201, 3 }, { 1, 0 }, { 2, 0 }, 2 },
 	{ { 0, 1 }, { 0, 0 }, { 0, 1 }, 0 },		/* zero-length chunk, short buffer */
+	/* nearly full and wrapped: the writer is 28 words behind the reader, whose head chunk ends the ring (read_pt 1010 -> 2); the first write fits only after two reads */
+	{ { 200, 3 }, { 0, 0 }, { 0, 0 }, 3 },
 };
 #define ENUM_YMAX 260	/* upper bound on yield points of a 2+2 script */
 
@@ -189,7 +192,7 @@ size_t verif_enum_count(const char *tier)
 {
 	/* per script and mode: no preemption (1) + one preemption (Y) + two (Y*(Y-1)/2) */
 	size_t Y = !strcmp(tier, "thorough") ? ENUM_YMAX : 120;
-	return 8 * 2 * (1 + Y + Y * (Y - 1) / 2);
+	return NES * 2 * (1 + Y + Y * (Y - 1) / 2);
 }
 size_t verif_enum_case(size_t idx, uint8_t *buf, size_t cap)
 {
@@ -223,7 +226,7 @@ int verif_case(const uint8_t *data, size_t size, struct verif_report *r)
 	nws = nrs = nat = nread = wraps = refused = empties = sw_w = sw_r = inflight_reads = 0;
 
 	if (size >= 7 && data[0] == 0xFE) {	/* ---- enumerated small-scope case */
-		const struct escript *e = &ES[data[1] % 8];
+		const struct escript *e = &ES[data[1] % NES];
 		uint16_t p1, p2; memcpy(&p1, data + 3, 2); memcpy(&p2, data + 5, 2);
 		enumerated = 1; SEM = data[2] & 1; S = 4000; prefill = e->prefill;
 		for (int i = 0; i < 2; i++) { WS[nws++] = (struct wop){ e->wtwo[i], e->wl[i], PAY_KEYED, (uint8_t)i }; RS[nrs++] = (struct rop){ e->rk[i], 1 }; }
@@ -269,6 +272,19 @@ int verif_case(const uint8_t *data, size_t size, struct verif_report *r)
 	/* stale bytes must never look like data: poison the whole data area */
 	memset(RBW->shared_data, 0xEE, real);
 	/* move the pointers off zero and leave history behind: prefill chunks written and consumed sequentially */
+	if (enumerated && prefill == 3) {
+		/* one chunk through the ring to move both pointers to word 1010, then three chunks that stay: 56 bytes (words 1010..2), 1800 bytes (2..454), 2100 bytes (454..981) */
+		static const uint32_t pl[4] = { 4032, 56, 1800, 2100 };
+		for (uint32_t i = 0; i < 4; i++) {
+			int keep = i > 0;
+			rb_fill_payload(wbuf, pl[i], keep ? (uint32_t)nat : 1000 + i, PAY_KEYED, i);
+			if (qb_rb_chunk_write(RBW, wbuf, pl[i]) != (ssize_t)pl[i]) { r->inconclusive = 1; break; }
+			if (!keep) { if (qb_rb_chunk_read(RBR, rbuf, BUFCAP, 0) != (ssize_t)pl[i]) { r->inconclusive = 1; break; } }
+			else AT[nat++] = (struct attempt){ pl[i], PAY_KEYED, (uint8_t)i, ST_OK, 0 };
+		}
+		if (!r->inconclusive && (RBW->shared_hdr->read_pt != 1010 || RBW->shared_hdr->write_pt != 981)) r->inconclusive = 1;	/* the layout this script is about */
+		prefill = 0;
+	}
 	for (uint32_t i = 0; i < prefill; i++) {
 		uint32_t len = enumerated ? (prefill == 1 ? 2000 : 1700) : 1100 + 300 * i;
 		int keep = enumerated && prefill == 1;	/* this one stays in the ring as chunk #0 */
